@@ -459,7 +459,9 @@ impl World {
 
     pub fn set_block(&mut self, height: u64, time: u64) {
         let chain_id = self.app.block_info().chain_id;
-        self.app.set_block(BlockInfo { height, time: Timestamp::from_seconds(time), chain_id });
+        // block times are not whole seconds on a real chain: every block gets a sub-second part decided by its height (the
+        // contracts — and the model — read seconds only; a slip that subtracts full timestamps shows only with uneven parts)
+        self.app.set_block(BlockInfo { height, time: Timestamp::from_nanos(time * 1_000_000_000 + crate::subsec(height)), chain_id });
     }
 
     fn transfers(&self, resp: &AppResponse) -> (Vec<(u64, u64, u128)>, Vec<String>) {
